@@ -30,6 +30,9 @@ type InputsExhausted struct{}
 
 func Bool() bool       { return next() != 0 }
 func Byte() byte       { return byte(next()) }
+
+// Digit is a free 4-bit value (0..15) as a byte: callers assume the range they need.
+func Digit() byte { return byte(next()) & 0x0f }
 func Uint16() uint16   { return uint16(next()) }
 func Uint32() uint32   { return uint32(next()) }
 func Int32() int32     { return int32(next()) }
